@@ -315,6 +315,22 @@ def run(ctx):
                 if isinstance(tg, ast.Attribute) and isinstance(tg.value, ast.Name) and tg.value.id == us.params[0]:
                     n_st += 1
                     reads = [x for x in ast.walk(n.value) if is_self_attr(x, tg.attr, recv=(us.params[0],))]
+                    if reads:
+                        # "keep it unless the response says otherwise": the old value only passes through unchanged on the paths where the
+                        # response does not carry the field (neither a condition nor a new value is computed from it)
+                        uss_ = summarize(prog, us)
+                        tv_ = uss_.ta.terms_at.get(n.value)
+                        old_ = ("attr", ("param", us.params[0]), tg.attr)
+
+                        def passthrough(t_):
+                            t_ = strip(t_)
+                            if t_ == old_:
+                                return True
+                            if t_[0] == "ite":
+                                return not any(y == old_ for y in subterms(t_[1])) and passthrough(t_[2]) and passthrough(t_[3])
+                            return not any(y == old_ for y in subterms(t_))
+                        if tv_ is not None and passthrough(tv_):
+                            reads = []
                     ctx.ob("C01.d", us.qual, not reads, f"self.{tg.attr} is overwritten (its new value does not depend on the old one)", func=us.qual, file=us.module.rel, node=n,
                            fail=f"the new self.{tg.attr} depends on its previous value: applying a response twice differs from applying it once")
     ctx.count("state_stores", n_st)
